@@ -343,7 +343,7 @@ class Engine:
         self.opaque_patterns = [re.compile(p) for p in opaque_patterns]
         self.ex = Ex(mir)
         self.max_paths = max_paths
-        self.solver = z3.Solver(); self.solver.set('timeout', 500)
+        self.solver = z3.Solver(); self.solver.set('timeout', int(os.environ.get('MIRSYM_FEAS_TIMEOUT_MS', '500')))
         self.results = []
         self.const_cache = {}
         self.stats = {'forks': 0, 'opaque_calls': {}, 'inlined': {}, 'merges': 0, 'merge_fail': 0}
